@@ -459,6 +459,7 @@ func ruleSendSites(c *Ctx, dv *dev, pf *parserFacts, shapes map[*ssa.Function]*c
 			cpos := c.P.Pos(call.Pos())
 			// kind
 			kind := sh.kindConst
+			onlyNoteOn := sh.kindParam < 0
 			if sh.kindParam >= 0 {
 				// a constant, or the parameter of a sending helper that every call site binds to a constant
 				kinds, okK := constKinds(c.P, args[sh.kindParam], 0)
@@ -467,7 +468,11 @@ func ruleSendSites(c *Ctx, dv *dev, pf *parserFacts, shapes map[*ssa.Function]*c
 					continue
 				}
 				badKind := false
+				onlyNoteOn = true
 				for _, kk := range kinds {
+					if kk != midiNoteOn {
+						onlyNoteOn = false
+					}
 					kind = kk
 					if kk != midiNoteOn && kk != midiNoteOff {
 						c.Bad("R5.3", ckey+"/kind", cpos, fmt.Sprintf("message kind 0x%X is not NoteOn/NoteOff (low nibble must be 0)", kk))
@@ -517,11 +522,15 @@ func ruleSendSites(c *Ctx, dv *dev, pf *parserFacts, shapes map[*ssa.Function]*c
 					c.Trivial("R5.4", ckey+"/"+names[i]+"(not-decided)", cpos, "value byte byte(int(127*x)) is derived from floating-point shaping: NOT decided by this check (see explanation)")
 					continue
 				}
-				okd, why := pf.proveRange(args[pi], call.Block(), 0, hi, 0)
+				lo := int64(0)
+				if kind == midiNoteOn && i == 1 && onlyNoteOn {
+					lo = 1 // a Note On with velocity 0 is a Note Off on the wire: the key would be tracked as sounding and stay silent
+				}
+				okd, why := pf.proveRange(args[pi], call.Block(), lo, hi, 0)
 				if okd {
 					c.OK("R5.4", ckey+"/"+names[i], cpos, why)
 				} else {
-					c.Bad("R5.4", ckey+"/"+names[i], cpos, fmt.Sprintf("%s byte not proven within 0..%d: %s", names[i], hi, why))
+					c.Bad("R5.4", ckey+"/"+names[i], cpos, fmt.Sprintf("%s byte not proven within %d..%d: %s", names[i], lo, hi, why))
 				}
 			}
 		}
